@@ -70,7 +70,7 @@ def make_world(rng, knobs=None):
         n_c = _rint(rng, *k["n_counties"])
         state_tf = float(rng.normal(0.0, 0.08))
         state_sw = float(rng.normal(0.0, 0.05))
-        n_d = _rint(rng, 1, 4) if district_election else 0
+        n_d = _rint(rng, *k.get("n_districts", (1, 4))) if district_election else 0
         dperm = rng.permutation(len(DISTRICT_POOL))[: max(n_d, 1)]
         districts = [DISTRICT_POOL[int(i)] for i in dperm]
         class_eff = {c: (float(rng.normal(0, 0.05)), float(rng.normal(0, 0.04))) for c in CLASSES}
